@@ -9,7 +9,7 @@
    Line kinds (field `kind`):
      direct dump   entity reventity colourname colourhex tagtrait attrtrait zerounit jsmime
                    svgcolourattr hash            (+ refcolour: self-test of Tables.CssColours)
-     probes        tagprobe rawprobe attrprobe unitprobe colourprobe svgattrprobe entprobe revprobe
+     probes        tagprobe sideprobe rawprobe rawafter attrprobe unitprobe colourprobe svgattrprobe entprobe revprobe
      notes         tablenote (an entry of a source-read map the driver could not evaluate; no clause, reported)
    Every invariant has the form  l <= N => (kind # k \/ Holds(Trace[l]) \/ Reject(l, clause)). *)
 EXTENDS TableText, TraceIO
@@ -41,6 +41,9 @@ EXTENDS TableText, TraceIO
      RawProbe           RawTagOK(probe): content of a non-raw-text element copied as raw text
      BlockTagOK         BlockTagOK: whitespace-dropping element is not block-level / table part / line break / not rendered
      TagProbe           BlockTagOK(probe): whitespace dropped next to an inline-level element
+     SideProbe/before   BlockTagOK(probe): blank before an atomic inline-level box dropped
+     SideProbe/after    BlockTagOK(probe): blank after an atomic inline-level box dropped
+     RawAfterProbe      RawTagOK(probe): text after an element, inside a non-raw parent, copied as raw text
      ZeroUnitOK         ZeroUnitOK: unit is neither a length nor an angle unit
      UnitProbe          ZeroUnitOK(probe): unit dropped from a zero that is neither length nor angle
      JsMimeOK           JsMimeOK: not a JavaScript MIME type essence
@@ -249,6 +252,29 @@ WsDropped(flat) == \E i \in 1..Len(flat) : \E j \in (i+1)..Len(flat) :
                       /\ \A k \in (i+1)..(j-1) : flat[k] < 0
 TagProbeOK == IsKind("tagprobe") =>
   (WsDropped(E.flat) => BlockOKTag(E.tag) \/ Reject(l, "TagProbe"))
+
+(* probe <p>1[ ]<T>[ ]2[ ]</T>[ ]3</p> (all 16 combinations of the four blanks) and <T> with a block child as fallback,
+   for the code that USES the whitespace trait: for an atomic inline-level box (inline-block or replaced element) a
+   blank directly outside the box - before its start tag / after its end tag (after the start tag of a void element)
+   - that was there in the input must still be there, because the blank inside is not rendered next to it.  For
+   other elements the weaker TagProbe rule (some blank left between the neighbouring words) applies to these
+   probes as well. *)
+IsBlank(x) == x \in {9, 10, 12, 13, 32}
+PosOf(flat, m) == SelectInSeq(flat, LAMBDA x : x = m)
+BoxEnd(flat, tag) == IF tag \in VoidElements \/ PosOf(flat, -2) = 0 THEN PosOf(flat, -1) ELSE PosOf(flat, -2)
+BlankBefore(flat) == LET i == PosOf(flat, -1) IN i > 1 /\ IsBlank(flat[i-1])
+BlankAfter(flat, tag) == LET j == BoxEnd(flat, tag) IN j > 0 /\ j < Len(flat) /\ IsBlank(flat[j+1])
+SideProbeOK == IsKind("sideprobe") =>
+  /\ ((AtomicInlineTag(E.tag) /\ PosOf(E.flat, -1) > 0 /\ PosOf(E.inflat, -1) > 0) =>
+        /\ ((BlankBefore(E.inflat) => BlankBefore(E.flat)) \/ Reject(l, "SideProbe/before"))
+        /\ ((BlankAfter(E.inflat, E.tag) => BlankAfter(E.flat, E.tag)) \/ Reject(l, "SideProbe/after")))
+  /\ ((~AtomicInlineTag(E.tag) /\ E.form < 100 /\ ~WsDropped(E.inflat) /\ WsDropped(E.flat)) =>
+        (BlockOKTag(E.tag) \/ Reject(l, "TagProbe")))
+(* probe <div><T></T>1  &quot;  2</div> and <div><T>x</T>1  &quot;  2</div>, with and without JS/CSS minifiers
+   registered: the text after T belongs to the div - "every element treated as raw text is a raw-text or escapable-raw-
+   text element" - so it must not come back byte for byte (it holds collapsible blanks and a shortenable reference). *)
+RawAfterProbeOK == IsKind("rawafter") =>
+  ((E.found /\ E.inraw = E.outraw) => Reject(l, "RawAfterProbe"))
 
 ----------------------------------------------------------------------------
 (* "the units dropped from zero values are length or angle units" *)
